@@ -206,7 +206,15 @@ A(Fn(X224, "new", impl=r"Client<S>", mod="x224", props=["C02"],
 A(Fn(X224, "write_connection_request", impl=r"Client<S>", mod="x224", props=["C17", "C03", "C04"],
      ensures=[("C17,C03,C04", "request-bytes", "r is Ok ==> final(tpkt).written() =~= old(tpkt).written() + tpkt::tpkt_frame(conn_req_bytes((if mode is Some { mode->Some_0 } else { 0u8 }), security_protocols))"),
               (None, "frame", "final(tpkt).rest() == old(tpkt).rest() && final(tpkt).tls() == old(tpkt).tls() && is_prefix(old(tpkt).written(), final(tpkt).written())")]))
-A(Fn(X224, "read_connection_confirm", impl=r"Client<S>", mod="x224", props=["C02", "C05"], keys=True,
+NEG_FAIL_ERR = r'Err\(Error::RdpError\(RdpError::new\(RdpErrorKind::ProtocolNegFailure, "Error during negotiation step"\)\)\)'
+NEG_REQ_ERR = r'Err\(Error::RdpError\(RdpError::new\(RdpErrorKind::InvalidAutomata, "Server reject security protocols"\)\)\)'
+NEG_P = "let b = old(tpkt).rest(); let p = b.subrange(tpkt::frame_hdr(b), tpkt::frame_len(b));"
+A(Fn(X224, "read_connection_confirm", impl=r"Client<S>", mod="x224", props=["C02", "C05", "C03"], keys=True,
+     # refusal justifications (MS-RDPBCGR 2.2.1.2: the negotiation structure behind the X.224 confirm is RDP_NEG_RSP type 2 or RDP_NEG_FAILURE type 3):
+     # "negotiation failure" only for type 3, "server echoes a request" only for type 1 (never sent by a conforming server).  The sites are match
+     # arms `Pat => Err(..)`: each claim opens a block around the arm expression, on a line of its own; the last two hints close the blocks
+     claims=[(NEG_FAIL_ERR, 1, "{\nproof { " + NEG_P + " assert(b.len() >= 2 && b[0] == 3 && tpkt::frame_len(b) >= 4 + 15 && neg_rsp_type(p) == 3); }", "at", "C03,C02", "failure-reported-only-for-RDP_NEG_FAILURE"),
+             (NEG_REQ_ERR, 1, "{\nproof { " + NEG_P + " assert(b.len() >= 2 && b[0] == 3 && tpkt::frame_len(b) >= 4 + 15 && neg_rsp_type(p) == 1); }", "at", "C03,C02", "refused-as-a-request-only-for-type-1")],
      ensures=[("C02", "only-a-negotiation-response-selects", """r is Ok ==> ({
                   let b = old(tpkt).rest(); let p = b.subrange(tpkt::frame_hdr(b), tpkt::frame_len(b));
                   &&& b.len() >= 2 && b[0] == 3 && b.len() >= tpkt::frame_len(b) && tpkt::frame_len(b) >= 4 + 15
@@ -235,12 +243,26 @@ A(Fn(X224, "read_connection_confirm", impl=r"Client<S>", mod="x224", props=["C02
             assert(first_key(n, "type"@) == 0);
             assert(first_key(n, "result"@) == 3);
         }"""),
-            (r"let nego = cast!", 1, "proof { assert(nego.fields() == pdu_neg(m)); }")]))
+            (r"let nego = cast!", 1, "proof { assert(nego.fields() == pdu_neg(m)); }"),
+            (NEG_FAIL_ERR, 1, "}", "atend"), (NEG_REQ_ERR, 1, "}", "atend")]))
+NOT_HANDLED_ERR = r'Err\(Error::RdpError\(RdpError::new\(RdpErrorKind::InvalidProtocol, "Security protocol not handled"\)\)\)'
+SEL_P = "let p = b0.subrange(tpkt::frame_hdr(b0), tpkt::frame_len(b0)); let sel = Protocols::from_repr(neg_rsp_selected(p));"
 A(Fn(X224, "connect", impl=r"Client<S>", mod="x224", props=["C02", "C17", "C03"],
      requires=["!tpkt.tls()"],
+     pre="let ghost b0 = tpkt.rest();",
+     hints=[(NOT_HANDLED_ERR, 1, "}", "atend")],
+     # rule R15: the third argument of start_nla ("send EMPTY credentials") is bound to a local so that a claim can name it (same value, same
+     # evaluation order: the first two arguments are plain variables).  C17: the CredSSP credentials are emptied iff restricted admin OR blank
+     # credentials was configured (either option alone empties them)
+     body_sub=[(r"tpkt\.start_nla\(check_certificate, authentication_protocol, ([^()]*(?:\([^()]*\)[^()]*)*)\)\?",
+                r"{ let __empty_creds: bool = \1; proof { assert(__empty_creds == (restricted_admin_mode || blank_creds)); } tpkt.start_nla(check_certificate, authentication_protocol, __empty_creds)? }")],
      # the dispatch that starts TLS / CredSSP is reached only with a protocol that was offered (no handshake, no NTLM token towards a server that
      # selected something else: a refusal AFTER the upgrade would already have sent them)
-     claims=[(r"match selected_protocol \{", 1, "proof { assert((selected_protocol as u32) & security_protocols != 0); }", "before", "C02", "upgrade-only-after-the-offer-check")],
+     claims=[(r"match selected_protocol \{", 1, "proof { assert((selected_protocol as u32) & security_protocols != 0); }", "before", "C02", "upgrade-only-after-the-offer-check"),
+             # refusal justifications, on the selectedProtocol field of the server's RDP_NEG_RSP (bytes 11..15 of the X.224 payload of the first frame read):
+             # "not offered" only when it has no bit in common with the request; "not handled" only when it is neither PROTOCOL_SSL nor PROTOCOL_HYBRID
+             (r"return Err\(.*Server selected a security protocol that was not offered", 1, "proof { " + SEL_P + " assert(sel is Some && (sel->Some_0 as u32) & security_protocols == 0); }", "before", "C03,C02", "refused-as-not-offered-only-when-no-offered-bit-is-selected"),
+             (NOT_HANDLED_ERR, 1, "{\nproof { " + SEL_P + " assert(sel is Some && !(sel->Some_0 is ProtocolSSL) && !(sel->Some_0 is ProtocolHybrid)); }", "at", "C03,C02", "refused-as-not-handled-only-when-neither-ssl-nor-hybrid")],
      ensures=[("C02", "tls-established", "r is Ok ==> r->Ok_0.tls()"),
               ("C02", "selection-was-offered", "r is Ok ==> (r->Ok_0.selected() as u32) & security_protocols != 0"),
               ("C02", "only-tls-based-protocols", "r is Ok ==> (r->Ok_0.selected() is ProtocolSSL || r->Ok_0.selected() is ProtocolHybrid)"),
